@@ -2,11 +2,22 @@ package monitor
 
 import (
 	"bytes"
+	"encoding/hex"
 	"fmt"
+	nas "github.com/free5gc/nas"
+	"github.com/free5gc/nas/nasConvert"
+	"github.com/free5gc/nas/nasType"
+	"github.com/free5gc/nas/uePolicyContainer"
+	"github.com/free5gc/openapi/models"
+	"os"
 	"runtime"
 	"runtime/debug"
+	"strings"
 	"sync"
 	"sync/atomic"
+	"time"
+	"verifharness/internal/refcodec"
+	"verifharness/internal/refconv"
 
 	"github.com/free5gc/nas/security"
 
@@ -23,6 +34,18 @@ import (
 // same entry points with DIFFERENT arguments; every result is still compared
 // with the value the standard function gives for that worker's own arguments
 // (computed beforehand, sequentially, by the reference implementation).
+
+// raceScale divides an iteration count when the worker is the race-detector side run (every
+// memory access is instrumented there; a race needs far fewer repetitions to be reported than
+// a wrong result needs to be produced).
+func raceScale(n int) int {
+	if os.Getenv("VERIF_RACE_SIDE") == "1" {
+		if n /= 25; n < 40 {
+			n = 40
+		}
+	}
+	return n
+}
 
 // concurrentProbe starts g workers at a barrier; worker w calls fn(w, i) for
 // i < iters and stops at its first complaint. Panics are recovered per worker.
@@ -87,7 +110,7 @@ func cryptoConcurrent(c *core.Ctx, k *core.Case, mac bool) {
 	if !refReady(c) {
 		return
 	}
-	alg, g, iters, nk := int(k.I[0]), int(k.I[2]), int(k.I[3]), int(k.I[4])
+	alg, g, iters, nk := int(k.I[0]), int(k.I[2]), raceScale(int(k.I[3])), int(k.I[4])
 	r := prng.New(uint64(k.I[1]))
 	keys := make([][16]byte, nk)
 	for i := range keys {
@@ -408,6 +431,12 @@ func coldConcurrent(c *core.Ctx, k *core.Case) {
 	r := prng.New(uint64(k.I[0]))
 	g, n := int(k.I[1]), int(k.I[2])
 	sh := &c19Shared{sp: sp, gmm: dispatchable(sp)}
+	for _, kd := range k.S {
+		if strings.HasPrefix(kd, "shared-e") || strings.HasPrefix(kd, "shared-g") {
+			sh = c19BuildShared(sp, uint64(k.I[0])) // decoded messages that all workers only read
+			break
+		}
+	}
 	for i := range sh.keys {
 		copy(sh.keys[i][:], r.Bytes(16))
 	}
@@ -474,5 +503,303 @@ func coldUnitN(target string, idx, workers int, kinds ...string) core.Unit {
 		k := &core.Case{Oracle: "cold-concurrent", Target: target, S: kinds, I: []int64{int64(c.R.Uint64() >> 1), int64(workers), int64(c.Pick(200, 2000))}}
 		c.Do(k)
 		c.NonTrivial(k.Hash())
+	}}
+}
+
+// ---- cold entry points -------------------------------------------------------
+//
+// Lazily built package state (a table filled on first use, a map created on demand) has a
+// window that exists once per process AND once per function. The cold-concurrent oracle
+// above enters the library through composite items, so the first calls of a particular
+// function are spread over microseconds. Here every entry point is a single library call;
+// the workers are released from a spinning barrier once per entry point, and their first
+// action is that call — each entry point is still cold when its turn comes.
+
+type coldEntry struct {
+	group string
+	name  string
+	fn    func(r *prng.Rand) uint64
+}
+
+func coldEntryTable(sp *refcodec.Spec) []coldEntry {
+	var es []coldEntry
+	add := func(group, name string, fn func(r *prng.Rand) uint64) { es = append(es, coldEntry{group, name, fn}) }
+	rndSnssai := func(r *prng.Rand) []byte {
+		return []byte{4, r.Byte(), r.Byte(), r.Byte(), r.Byte()}
+	}
+	add("lists", "SnssaiToModels", func(r *prng.Rand) uint64 {
+		b := rndSnssai(r)
+		e := nasType.NewSNSSAI(0x22)
+		e.SetLen(b[0])
+		copy(e.Octet[:], b[1:])
+		m := nasConvert.SnssaiToModels(e)
+		return hs(m.Sd) ^ uint64(m.Sst)
+	})
+	add("lists", "RequestedNssaiToModels", func(r *prng.Rand) uint64 {
+		b := append(rndSnssai(r), rndSnssai(r)...)
+		e := nasType.NewRequestedNSSAI(0x2f)
+		e.SetLen(uint8(len(b)))
+		e.SetSNSSAIValue(b)
+		ms, err := nasConvert.RequestedNssaiToModels(e)
+		d := hs(fmt.Sprint(err))
+		for _, m := range ms {
+			if m.ServingSnssai != nil {
+				d = d*31 + hs(m.ServingSnssai.Sd) + uint64(m.ServingSnssai.Sst)
+			}
+		}
+		return d
+	})
+	add("lists", "SnssaiToNas", func(r *prng.Rand) uint64 {
+		return h64(nasConvert.SnssaiToNas(models.Snssai{Sst: int32(r.Byte()), Sd: hex.EncodeToString(r.Bytes(3))}))
+	})
+	add("lists", "TaiListToNas", func(r *prng.Rand) uint64 {
+		tl, _ := c13RandTais(r, r.Range(1, 6), 1+r.Intn(2))
+		return h64(nasConvert.TaiListToNas(tl))
+	})
+	add("lists", "LadnToNas", func(r *prng.Rand) uint64 {
+		tl, _ := c13RandTais(r, 2, 1)
+		return h64(nasConvert.LadnToNas("internet", tl))
+	})
+	add("misc", "ModelsToSessionAMBR", func(r *prng.Rand) uint64 {
+		u := ambrUnits[r.Intn(len(ambrUnits))]
+		a := nasConvert.ModelsToSessionAMBR(&models.Ambr{Uplink: fmt.Sprintf("%d %s", r.Intn(65536), u), Downlink: fmt.Sprintf("%d %s", r.Intn(65536), ambrUnits[r.Intn(len(ambrUnits))])})
+		return h64(a.Octet[:])
+	})
+	add("misc", "GPRSTimer3ToNas", func(r *prng.Rand) uint64 { return uint64(nasConvert.GPRSTimer3ToNas(r.Intn(1116000))) })
+	add("misc", "GPRSTimer2ToNas", func(r *prng.Rand) uint64 { return uint64(nasConvert.GPRSTimer2ToNas(2 * r.Intn(60))) })
+	add("misc", "EncodeLocalTimeZoneToNas", func(r *prng.Rand) uint64 {
+		return uint64(nasConvert.EncodeLocalTimeZoneToNas(fmtZone((r.Intn(159) - 79) * 900)).Octet)
+	})
+	add("misc", "TimeStamp", func(r *prng.Rand) uint64 {
+		t := time.Unix(946684800+2*int64(r.Intn(1500000000)), 0).In(c17Loc(r.Intn(len(c17Locations))))
+		ts := nasConvert.EncodeUniversalTimeAndLocalTimeZoneToNas(t)
+		return h64(ts.Octet[:]) ^ uint64(nasConvert.DecodeUniversalTimeAndLocalTimeZone(ts).Unix())<<3 ^ hs(nasConvert.GetTimeZone(t))
+	})
+	add("misc", "NetworkName", func(r *prng.Rand) uint64 {
+		return h64(nasConvert.FullNetworkNameToNas(string(gsm7Plain[:r.Intn(40)])).Buffer)
+	})
+	add("misc", "PSI", func(r *prng.Rand) uint64 { return h64(nasConvert.PSIToBuf(nasConvert.PSIToBooleanArray(r.Bytes(2)))) })
+	add("ident", "PlmnIDToString", func(r *prng.Rand) uint64 {
+		w := refconv.PlmnWire(digits(r, 3), digits(r, 2+r.Intn(2)))
+		return hs(nasConvert.PlmnIDToString(w[:]))
+	})
+	add("ident", "PlmnIDToNas", func(r *prng.Rand) uint64 {
+		return h64(nasConvert.PlmnIDToNas(models.PlmnId{Mcc: digits(r, 3), Mnc: digits(r, 2+r.Intn(2))}))
+	})
+	add("ident", "GutiToString", func(r *prng.Rand) uint64 {
+		_, s, err := nasConvert.GutiToStringWithError(refconv.GutiWire(digits(r, 3), digits(r, 2+r.Intn(2)), r.Uint32()&0xffffff, r.Uint32()))
+		return hs(s) ^ hs(fmt.Sprint(err))
+	})
+	add("ident", "GutiToNas", func(r *prng.Rand) uint64 {
+		g, err := nasConvert.GutiToNasWithError(refconv.GutiText(digits(r, 3), digits(r, 2+r.Intn(2)), r.Uint32()&0xffffff, r.Uint32()))
+		return h64(g.Octet[:]) ^ hs(fmt.Sprint(err))
+	})
+	add("ident", "SuciToString", func(r *prng.Rand) uint64 {
+		s, p, err := nasConvert.SuciToStringWithError(refconv.SuciWire(digits(r, 3), digits(r, 2), digits(r, 2), 0, 1, digits(r, 10), nil))
+		return hs(s) ^ hs(p)<<1 ^ hs(fmt.Sprint(err))
+	})
+	add("ident", "PeiToString", func(r *prng.Rand) uint64 {
+		s, err := nasConvert.PeiToStringWithError(refconv.PeiWire(digits(r, 15), false))
+		return hs(s) ^ hs(fmt.Sprint(err))
+	})
+	add("ident", "AmfId", func(r *prng.Rand) uint64 {
+		v := r.Uint32() & 0xffffff
+		a, b, cc := refconv.AmfIDSplit(v)
+		x, y, z, err := nasConvert.AmfIdToNasWithError(nasConvert.AmfIdToModels(a, b, cc))
+		return uint64(x)<<24 ^ uint64(y)<<8 ^ uint64(z) ^ hs(fmt.Sprint(err))
+	})
+	add("ident", "MobileIdentityGetters", func(r *prng.Rand) uint64 {
+		e := nasType.NewMobileIdentity5GS(0)
+		w := refconv.GutiWire(digits(r, 3), digits(r, 2+r.Intn(2)), r.Uint32()&0xffffff, r.Uint32())
+		e.SetLen(uint16(len(w)))
+		e.SetMobileIdentity5GSContents(w)
+		return hs(e.GetPlmnID()) ^ hs(e.Get5GGUTI())<<1 ^ hs(e.GetAmfSetID())<<2 ^ hs(e.Get5GTMSI())<<3
+	})
+	for alg := uint8(0); alg <= 3; alg++ {
+		alg := alg
+		add("mac", fmt.Sprintf("NASMacCalculate-%d", alg), func(r *prng.Rand) uint64 {
+			m, err := security.NASMacCalculate(alg, key16(r.Bytes(16)), r.Uint32(), uint8(r.Intn(32)), uint8(r.Intn(2)), r.Bytes(r.Range(1, 40)))
+			return h64(m) ^ hs(fmt.Sprint(err))
+		})
+		add("cipher", fmt.Sprintf("NASEncrypt-%d", alg), func(r *prng.Rand) uint64 {
+			b := r.Bytes(r.Range(0, 40))
+			err := security.NASEncrypt(alg, key16(r.Bytes(16)), r.Uint32(), uint8(r.Intn(32)), uint8(r.Intn(2)), b)
+			return h64(b) ^ hs(fmt.Sprint(err))
+		})
+	}
+	add("qos", "QoSRulesUnmarshal", func(r *prng.Rand) uint64 {
+		var v nasType.QoSRules
+		err := v.UnmarshalBinary(refconv.SerializeRules(genRules(r, 1+r.Intn(3), r.Intn(18))))
+		b, _ := v.MarshalBinary()
+		return h64(b) ^ hs(fmt.Sprint(err))
+	})
+	add("qos", "QoSFlowDescsUnmarshal", func(r *prng.Rand) uint64 {
+		var v nasType.QoSFlowDescs
+		err := v.UnmarshalBinary(refconv.SerializeDescs(genDescs(r, 1+r.Intn(3))))
+		b, _ := v.MarshalBinary()
+		return h64(b) ^ hs(fmt.Sprint(err))
+	})
+	add("pco", "PCOUnMarshal", func(r *prng.Rand) uint64 {
+		p := nasConvert.NewProtocolConfigurationOptions()
+		err := p.UnMarshal(pcoContents(r, r.Intn(8)))
+		return h64(p.Marshal()) ^ hs(fmt.Sprint(err))
+	})
+	add("uepolicy", "UEPolicyListUnmarshal", func(r *prng.Rand) uint64 {
+		var v uePolicyContainer.UEPolicySectionManagementListContent
+		err := v.UnmarshalBinary(refSubLists(genSubs(r, 1+r.Intn(3))))
+		b, _ := v.MarshalBinary()
+		return h64(b) ^ hs(fmt.Sprint(err))
+	})
+	add("count", "CountAndAllocator", func(r *prng.Rand) uint64 {
+		var cnt security.Count
+		cnt.Set(uint16(r.Uint32()), r.Byte())
+		cnt.AddOne()
+		g := uePolicyContainer.NewGenerator(1, 9)
+		id, _ := g.Allocate()
+		return uint64(cnt.Get())<<8 ^ uint64(id)
+	})
+	if sp != nil {
+		for _, def := range dispatchable(sp) {
+			def := def
+			add("codec", "decode-"+def.Name, func(r *prng.Rand) uint64 {
+				b := refcodec.RandomPlan(def, r, 1+r.Intn(5), r.Intn(5)).Bytes()
+				m := nas.NewMessage()
+				if err := m.PlainNasDecode(&b); err != nil {
+					return hs(err.Error())
+				}
+				out, err := m.PlainNasEncode()
+				return h64(out) ^ hs(fmt.Sprint(err))
+			})
+		}
+	}
+	return es
+}
+
+// oracle "cold-entries": S=[groups] I=[seed, workers, callsPerEntry]
+func coldEntries(c *core.Ctx, k *core.Case) {
+	sp, _ := codecSpec()
+	want := map[string]bool{}
+	for _, g := range k.S {
+		want[g] = true
+	}
+	g, per := int(k.I[1]), int(k.I[2])
+	base := prng.New(uint64(k.I[0]))
+	for ei, e := range coldEntryTable(sp) {
+		if !want[e.group] {
+			continue
+		}
+		seeds := make([][]uint64, g)
+		res := make([][]uint64, g)
+		for w := range seeds {
+			seeds[w] = make([]uint64, per)
+			res[w] = make([]uint64, per)
+			for i := range seeds[w] {
+				seeds[w][i] = base.Uint64()
+			}
+		}
+		fn := e.fn
+		msgs := concurrentProbe(g, per, func(w, i int) string {
+			res[w][i] = fn(prng.New(seeds[w][i]))
+			return ""
+		})
+		c.Eval(int64(g * per))
+		if len(msgs) > 0 {
+			c.Fail(k, "cold-entry-"+msgs[0][:min3(len(msgs[0]), 100)], fmt.Sprintf("entry point %s: %s", e.name, msgs[0]))
+			continue
+		}
+		bad := 0
+		for w := 0; w < g && bad == 0; w++ {
+			for i := 0; i < per; i++ {
+				if ref := fn(prng.New(seeds[w][i])); ref != res[w][i] {
+					bad++
+					c.Fail(k, "cold-entry-result-differs:"+e.name, fmt.Sprintf("entry point %s (number %d of the table): call %d of worker %d of %d, made while all workers entered this function for the first time in the process, gave digest %#x; the same call made alone afterwards gives %#x", e.name, ei, i, w, g, res[w][i], ref))
+					break
+				}
+			}
+		}
+		c.Cover("cold_entry", e.name)
+	}
+}
+
+// coldEntryUnits: Fresh units (a process each) that run the cold-entries oracle.
+func coldEntryUnits(tier, target string, groups ...string) []core.Unit {
+	workers := []int{32, 128}
+	if tier == "thorough" {
+		workers = []int{32, 128, 64, 128, 16, 128}
+	}
+	var us []core.Unit
+	for i, w := range workers {
+		i, w := i, w
+		us = append(us, core.Unit{Name: fmt.Sprintf("cold-entries-%d", i), Weight: 30, Fresh: true, Run: func(c *core.Ctx) {
+			k := &core.Case{Oracle: "cold-entries", Target: target, S: groups, I: []int64{int64(c.R.Uint64() >> 1), int64(w), 6}}
+			c.Do(k)
+			c.NonTrivial(k.Hash())
+		}})
+	}
+	return us
+}
+
+// oracle "concurrent-neighbours": I=[alg, seed, pairs, iters, mac] — pairs of goroutines own
+// ADJACENT windows of one array: A hands its window (length not a multiple of 4, the rest of
+// the array as spare capacity) to NASEncrypt / NASMacCalculate over and over, B only writes
+// and re-reads its own octets, which start right behind A's window. The library has no
+// business in B's octets: B must always read back what it wrote, and under the race detector
+// any access of the library to them is reported.
+func cryptoNeighbours(c *core.Ctx, k *core.Case) {
+	alg, pairs, iters, mac := uint8(k.I[0]), int(k.I[2]), raceScale(int(k.I[3])), k.I[4] == 1
+	r := prng.New(uint64(k.I[1]))
+	type pair struct {
+		arr  []byte
+		n    int
+		key  [16]byte
+		lost int64
+	}
+	ps := make([]*pair, pairs)
+	for i := range ps {
+		p := &pair{n: 4*r.Range(1, 12) + 1 + r.Intn(3)}
+		p.arr = make([]byte, p.n+8)
+		copy(p.key[:], r.Bytes(16))
+		ps[i] = p
+	}
+	msgs := concurrentProbe(2*pairs, iters, func(w, i int) string {
+		p := ps[w/2]
+		if w%2 == 0 {
+			win := p.arr[:p.n] // capacity runs over the neighbour's octets
+			if mac {
+				_, _ = security.NASMacCalculate(alg, p.key, uint32(i), 3, 1, win)
+			} else {
+				_ = security.NASEncrypt(alg, p.key, uint32(i), 3, 1, win)
+			}
+			return ""
+		}
+		own := p.arr[p.n : p.n+4]
+		v := byte(i)
+		own[0], own[1], own[2], own[3] = v, v+1, v+2, v+3
+		runtime.Gosched()
+		if own[0] != v || own[1] != v+1 || own[2] != v+2 || own[3] != v+3 {
+			return fmt.Sprintf("the goroutine that owns the %d octets behind a %d-octet payload wrote %02x %02x %02x %02x there and read back %02x %02x %02x %02x while its neighbour's payload went through algorithm %d", 4, p.n, v, v+1, v+2, v+3, own[0], own[1], own[2], own[3], alg)
+		}
+		return ""
+	})
+	c.Eval(int64(2 * pairs * iters))
+	c.Count("neighbour_calls", int64(pairs*iters))
+	if len(msgs) > 0 {
+		what := "NASEncrypt"
+		if mac {
+			what = "NASMacCalculate"
+		}
+		c.Fail(k, fmt.Sprintf("writes-into-neighbour:%s:alg%d", what, alg), msgs[0])
+	}
+}
+
+func cryptoNeighbourUnit() core.Unit {
+	return core.Unit{Name: "concurrent-neighbours", Weight: 40, Run: func(c *core.Ctx) {
+		for alg := int64(0); alg <= 3; alg++ {
+			for mac := int64(0); mac < 2; mac++ {
+				k := &core.Case{Oracle: "concurrent-neighbours", Target: "security", I: []int64{alg, int64(c.R.Uint64() >> 1), 8, int64(c.Pick(6000, 100000)), mac}}
+				c.Do(k)
+				c.NonTrivial(k.Hash())
+			}
+		}
 	}}
 }
